@@ -9,8 +9,10 @@ props = [json.loads(l) for l in (ROOT / "properties.jsonl").read_text().splitlin
 checks, na = [], []
 for p in props:
     pid = p["id"]
-    m = meta["checks"].get(pid)
-    if m and (ROOT / "harness" / "props" / f"{pid.lower()}.py").exists():
+    m = None
+    if (ROOT / "harness" / "props" / f"{pid.lower()}.py").exists():
+        m = getattr(importlib.import_module(f"harness.props.{pid.lower()}"), "MANIFEST", None)
+    if m:
         checks.append({
             "property_id": pid,
             "quick_cmd": f"./check {pid} --tier quick",
